@@ -292,6 +292,7 @@ impl Chip127x {
             crc_on,
             preamble: u16::from_be_bytes([self.r(REG_PREAMBLE_MSB), self.r(REG_PREAMBLE_LSB)]),
             power_dbm,
+            sync: self.r(REG_SYNC_WORD) as u16,
         }
     }
 
